@@ -401,10 +401,14 @@ PROPS['C25'] = {
     'modules': ['MinterProofs.Props.C25'],
     'theorems': ['Minter.C25_interleave_invariant', 'Minter.C25_same_modulo_queries'],
     'race_build': True,   # core.build_all also builds bin/harness-race (go build -race) for this property only
-    'modes': [{'mode': 'concurrent', 'args': ['-profile', 'mixed', '-seed', '{seed}', '-n', '{n:3:12}', '-tier', '{tier}', '-keep', '{keep}', '-readers', '6', '-racebin', '/verif/bin/harness-race']}],
+    # three runs: the mixed profile, the orders profile (limit orders in the books), and the orders profile with a market maker in it
+    # ("+mm", harness/mode_concurrent.go: orders kept next to the pool price, partial fills left in the book, fees paid across them)
+    'modes': [{'mode': 'concurrent', 'args': ['-profile', 'mixed', '-seed', '{seed}', '-n', '{n:2:8}', '-tier', '{tier}', '-keep', '{keep}', '-readers', '6', '-racebin', '/verif/bin/harness-race']},
+              {'mode': 'concurrent', 'args': ['-profile', 'orders', '-seed', '{seed}', '-n', '{n:1:6}', '-tier', '{tier}', '-keep', '{keep}', '-readers', '6', '-racebin', '/verif/bin/harness-race']},
+              {'mode': 'concurrent', 'args': ['-profile', 'orders+mm', '-seed', '{seed}', '-n', '{n:2:8}', '-tier', '{tier}', '-keep', '{keep}', '-readers', '6', '-racebin', '/verif/bin/harness-race']}],
     'assumptions': ['the op-level model cannot exhibit sub-operation interleavings of the Go runtime (unsynchronised map access, lock ordering, lazy cache fills from reader goroutines): those are explored by the concurrent mode (race-detector build), not proved',
                     'a panic inside a read-only handler is recovered by the API server; the mode counts reader panics in its notes (reader_panics) and does not treat them as violations'],
-    'claim_draft': "Partial. Lean theorems (op level): for every state machine whose query operations are read-only (return the state they were given), inserting any number of queries anywhere into a history changes neither the final state nor any response of the non-query operations, and two histories that differ only in their queries end in the same state with the same responses (C25_interleave_invariant, C25_same_modulo_queries; for all machines, states and histories). This is interleaving at ABCI-operation granularity only. The Go-runtime part of the property is EXPLORATION, not proof: mode concurrent runs every generated history twice in child processes - query-free, and with 6 reader goroutines that hammer the read-only getters the API uses (balances, candidates, stakes, coins, pools, order books, route search, validators, frozen funds, waitlist, export through GetStateForHeight) on CurrentState() while blocks execute, in a race-detector build - and requires identical traces (every response, tag, state delta and app hash); the loaded process must neither die nor hang (10-minute limit per history; a hang is reported with the goroutine dump taken by SIGQUIT). Race reports are summarised in the notes by first node frame; recovered reader panics are counted (reader_panics), not violations.",
+    'claim_draft': "Partial. Lean theorems (op level): for every state machine whose query operations are read-only (return the state they were given), inserting any number of queries anywhere into a history changes neither the final state nor any response of the non-query operations, and two histories that differ only in their queries end in the same state with the same responses (C25_interleave_invariant, C25_same_modulo_queries; for all machines, states and histories). This is interleaving at ABCI-operation granularity only. The Go-runtime part of the property is EXPLORATION, not proof: mode concurrent runs every generated history twice in child processes - query-free, and with 6 API clients (goroutines) that call the real gRPC handlers of api/v2/service on the node while blocks execute (Address/Addresses with delegated stakes, Candidate(s) with stakes, CoinInfo(ById), EstimateCoinSell/Buy/SellAll with every swap_from, with the fee coin = base coin and = custom coins so that the fee conversion through a pool with limit orders is simulated, with routes, EstimateTxCommission on serialized transactions, SwapPool(s), SwapPoolProvider, LimitOrder(s)(OfPool), BestTrade of both types, Frozen(All), WaitList, Halts, MaxGasPrice, PriceCommission, votes, MissedBlocks, VersionNetwork, Events, export of a committed height; arguments from the running world: its addresses, public keys, coin counter, the pools and order ids SwapPools lists, order-book sides whose best order is fillable at the pool price; handlers that need the Tendermint client are not called), in a race-detector build, over the profiles mixed, orders and orders+mm (a market maker keeps orders next to the pool price, takers leave them partially filled, fees are paid across them) - and requires identical traces (every response, tag, state delta and app hash; the harness' own cache-vs-disk observation lines are excluded and counted as stale_cache_entries); the loaded process must neither die nor hang (a watchdog inside the child reports block execution that reaches no new height for 45 s with every goroutine's stack; backstop: 40x the query-free time, at least 2 and at most 10 minutes, goroutine dump by SIGQUIT). Race reports are summarised in the notes by first node frame; recovered reader panics are counted (reader_panics), not violations.",
 }
 PROPS['C07'] = {
     'level': 'proof', 'registered': False,
